@@ -257,6 +257,10 @@ fn jobs_for(prop: &str, rng: &mut Rng, case: &Case, input: &[u8], sp: &SpecRun, 
 }
 
 fn alloc_modes(prop: &str) -> Vec<u32> {
+    // sanitizer builds bring their own red zones: the guard allocator is switched off there
+    if std::env::var("HV_ALLOC_PASS").is_ok() {
+        return vec![alloc::PASS];
+    }
     match prop {
         "C06" | "C10" => vec![alloc::GUARD_RIGHT, alloc::GUARD_LEFT],
         _ => vec![alloc::PASS],
